@@ -56,34 +56,8 @@ func checkC05(r *Run) {
 			licensed[f.Obj] = true
 		}
 	}
-	// an operand wrapper ("evaluate; an unknown identifier is nil") carries the licence of its callers:
-	// it is licensed when every call site is in the prefix or if/else-if evaluators, whose tolerance is unconditional
-	uncond := map[*types.Func]bool{}
-	for _, n := range []string{"PrefixExpression", "IfExpression"} {
-		for _, f := range w.evalMethods(n) {
-			uncond[f.Obj] = true
-		}
-	}
-	for wr, tol := range w.operandWrappers() {
-		if !tol {
-			continue
-		}
-		nSites, okSites := 0, true
-		for _, f := range w.Funcs("") {
-			for _, c := range callsIn(f.Decl.Body, false) {
-				if calleeOf(f.Pkg.TypesInfo, c) == wr {
-					nSites++
-					if !uncond[f.Obj] {
-						okSites = false
-					}
-				}
-			}
-		}
-		if nSites > 0 && okSites {
-			licensed[wr] = true
-		}
-	}
 	tolerated := map[string]bool{}
+	var tols []tolRecord
 	for _, rel := range c05Scope {
 		for _, f := range w.Funcs(rel) {
 			fn := w.SSAFunc(f)
@@ -97,13 +71,73 @@ func checkC05(r *Run) {
 					r.Note("R1 exception %s: %s", name, why)
 					continue
 				}
-				errorFlow(r, g, f, licensed[f.Obj], tolerated)
+				for _, t := range errorFlow(r, g, f) {
+					t.anon = g != fn
+					tols = append(tols, t)
+					tolerated[name] = true
+				}
 				emptyOnError(r, g)
 			}
 		}
 	}
 	if len(tolerated) == 0 {
 		r.Lost("R2", "typed unknown-identifier tolerance in the licensed evaluators")
+	}
+	// a helper of the licensed evaluators ("evaluate this operand; an unknown identifier is nil")
+	// carries the licence of its callers: it is licensed when it is an unexported function that is
+	// not itself the evaluator of a node type and every use of it in the module is a static call from
+	// a licensed function. (For call sites in the infix evaluator the operator set is decided on the
+	// paths of the infix evaluator with the helper walked in line -- toleranceOperatorSetSSA.)
+	cand := map[*types.Func]bool{}
+	for _, t := range tols {
+		if !licensed[t.decl.Obj] && !t.anon && !t.decl.Obj.Exported() && t.decl.Rel == "" && !c05IsNodeEvaluator(w, t.decl) {
+			cand[t.decl.Obj] = true
+		}
+	}
+	for changed := true; changed; {
+		changed = false
+		for wr := range cand {
+			if licensed[wr] {
+				continue
+			}
+			nSites, okSites := 0, true
+			for _, f := range w.Funcs("") {
+				info := f.Pkg.TypesInfo
+				callIdents := map[*ast.Ident]bool{}
+				for _, c := range callsIn(f.Decl.Body, false) {
+					if calleeOf(info, c) == wr {
+						nSites++
+						if !licensed[f.Obj] {
+							okSites = false
+						}
+						switch fun := unparen(c.Fun).(type) {
+						case *ast.Ident:
+							callIdents[fun] = true
+						case *ast.SelectorExpr:
+							callIdents[fun.Sel] = true
+						}
+					}
+				}
+				ast.Inspect(f.Decl.Body, func(n ast.Node) bool {
+					if id, ok := n.(*ast.Ident); ok && info.Uses[id] == wr && !callIdents[id] {
+						okSites = false // used as a value: its callers are not known
+					}
+					return true
+				})
+			}
+			if nSites > 0 && okSites {
+				licensed[wr] = true
+				changed = true
+			}
+		}
+	}
+	for _, t := range tols {
+		if licensed[t.decl.Obj] && !t.anon {
+			r.Ok("R2", t.name, t.con+" tolerated when unknown identifier", t.pos, "licensed site: typed assertion on the ok edge")
+		} else {
+			r.Bad("R2", t.name, t.con+" tolerated when unknown identifier", t.pos,
+				"the unknown-identifier tolerance is licensed only in the prefix, if/else-if and infix evaluators (and helpers that only they call)")
+		}
 	}
 	toleranceOperatorSetSSA(r)
 	wrapVerbRule(r)
@@ -290,7 +324,20 @@ func nilTest(b *ssa.BasicBlock, al map[ssa.Value]bool) (nonnil, nilb *ssa.BasicB
 	return b.Succs[1], b.Succs[0], true
 }
 
-func errorFlow(r *Run, fn *ssa.Function, decl *FuncInfo, licensed bool, tolerated map[string]bool) {
+type tolRecord struct {
+	name, con string
+	pos       string
+	decl      *FuncInfo
+	anon      bool
+}
+
+// c05IsNodeEvaluator: f is the evaluator of some node type (its single parameter is a node).
+func c05IsNodeEvaluator(w *World, f *FuncInfo) bool {
+	fn := w.SSAFunc(f)
+	return fn != nil && w.isCompilerMethod(fn) && w.isNodeEvaluator(fn)
+}
+
+func errorFlow(r *Run, fn *ssa.Function, decl *FuncInfo) (tols []tolRecord) {
 	w := r.W
 	name := ssaName(fn)
 	for _, src := range errSourcesOf(fn) {
@@ -339,20 +386,14 @@ func errorFlow(r *Run, fn *ssa.Function, decl *FuncInfo, licensed bool, tolerate
 			}
 			if res.tolerated {
 				how = "typed tolerance of *ErrUnknownIdentifier"
-				tolerated[name] = true
-				if licensed {
-					r.Ok("R2", name, con+" tolerated when unknown identifier", pos, "licensed site: typed assertion on the ok edge")
-				} else {
-					okAll = false
-					r.Bad("R2", name, con+" tolerated when unknown identifier", pos,
-						"the unknown-identifier tolerance is licensed only in the prefix, if/else-if and infix evaluators")
-				}
+				tols = append(tols, tolRecord{name: name, con: con, pos: pos, decl: decl})
 			}
 		}
 		if okAll {
 			r.Ok("R1", name, con, pos, how)
 		}
 	}
+	return tols
 }
 
 func shortCallee(s string) string {
@@ -506,7 +547,12 @@ func nonNilSide(fn *ssa.Function, test, nn, nb *ssa.BasicBlock, al map[ssa.Value
 		case *ssa.Return:
 			if ops := retOperands(t); len(ops) > 0 && isErrorType(ops[len(ops)-1].Type()) {
 				if isNilConst(ops[len(ops)-1]) {
-					res.nilReturns = append(res.nilReturns, t)
+					if lic {
+						// "an unknown identifier is nil": the helper reports success under the typed assertion
+						res.tolerated = true
+					} else {
+						res.nilReturns = append(res.nilReturns, t)
+					}
 				}
 			} else if len(ops) == 0 || !isErrorType(ops[len(ops)-1].Type()) {
 				// the function cannot report errors at all: leaving here is swallowing
